@@ -233,7 +233,12 @@ class SymStr(str):
     def __contains__(self, sub):
         if not isinstance(sub, str):
             raise TypeError("'in <string>' requires string as left operand")
-        return self.find(sub) != -1
+        # one fork on "occurs somewhere" (not one per candidate position as find() does): the answer is a boolean, the position is irrelevant
+        e = self.contains_expr(sub)
+        if isinstance(e, bool):
+            return e
+        cur().tick()
+        return fork(e)
 
     def __bool__(self):
         return len(self.items) > 0
